@@ -329,7 +329,7 @@ func verifC28E2E(f []string) string {
 	os.Mkdir(filepath.Join(dir, "p"), 0o755)
 	var files []string
 	switch f[0] {
-	case "list":
+	case "list", "lists", "liste", "listse": // lists / liste / listse: with a start / end / both query parameter
 		k := verifutil.Atoi(f[1])
 		for i := 0; i < k; i++ {
 			files = append(files, f[3+2*i])
@@ -421,6 +421,14 @@ func TestVerifC28Child(t *testing.T) {
 	v := url.Values{}
 	v.Set("path", "p")
 	ep := "list"
+	switch os.Getenv("VERIF_C28_REQ") {
+	case "lists", "listse":
+		v.Set("start", time.Date(2020, 1, 1, 0, 0, 0, 0, time.Local).Format(time.RFC3339))
+	}
+	switch os.Getenv("VERIF_C28_REQ") {
+	case "liste", "listse":
+		v.Set("end", time.Date(2020, 1, 1, 1, 0, 0, 0, time.Local).Format(time.RFC3339))
+	}
 	if os.Getenv("VERIF_C28_REQ") == "get" {
 		ep = "get"
 		v.Set("start", time.Date(2020, 1, 1, 0, 0, 0, 0, time.Local).Format(time.RFC3339))
@@ -1055,7 +1063,7 @@ func verifC28GenE2E(r *verifutil.Rand, src []byte, base verifC28Base, hl int) st
 	}
 	if r.Bool() {
 		k := 1 + r.Intn(2)
-		s := fmt.Sprintf("e2e list %d", k)
+		s := fmt.Sprintf("e2e %s %d", r.Pick("list", "lists", "liste", "listse"), k)
 		for j := 0; j < k; j++ {
 			b := hostile()
 			s += " " + verifC28InitOracle(b) + " " + verifutil.Hex(b)
@@ -1168,6 +1176,11 @@ func TestVerifC28MkCorpus(t *testing.T) {
 	out = append(out, parse(b), mux(b, a2u.tracks))
 	out = append(out, "# the same through the real HTTP server in a child process")
 	out = append(out, fmt.Sprintf("e2e list 2 %s %s %s %s", verifC28InitOracle(a1c.data), verifutil.Hex(a1c.data), verifC28InitOracle(ts0), verifutil.Hex(ts0)))
+	zero := make([]byte, 300)
+	for _, v := range []string{"lists", "liste", "listse"} {
+		out = append(out, fmt.Sprintf("e2e %s 1 %s %s", v, verifC28InitOracle(zero), verifutil.Hex(zero)))
+	}
+	out = append(out, fmt.Sprintf("e2e listse 2 %s %s %s %s", verifC28InitOracle(zero), verifutil.Hex(zero), verifC28InitOracle(a1c.data), verifutil.Hex(a1c.data)))
 	st := stray(va3c.data, "tfdt")
 	ev, _ := verifC28Events(st, verifC28ParseTracks(va3c.tracks))
 	out = append(out, fmt.Sprintf("e2e get %s %s %s", verifC28InitOracle(st), ev, verifutil.Hex(st)))
